@@ -183,6 +183,10 @@ def run(tier):
                     fixed.add(t["d"]["l"])
     ck.ob("A-two-argument-vectors", "main", sorted(set(sum((sorted(v) for v in seeds.values()), []))) == ["POST", "PRE"],
           "main does not split env::args() at `--` into a pre part and a post part (take_while/skip_while on `!= \"--\"`, or slices cut at the position of \"--\"): %s" % seeds)
+    # the processed header: whatever parse_header returned (label HDR), followed through locals and into helpers
+    for bb, t in body.calls():
+        if ((t.get("callee") or {}).get("path") or "").endswith("::parse_header") and not t["d"]["p"]:
+            seeds.setdefault(t["d"]["l"], set()).add("HDR")
     tn = taint.propagate(body, seeds, fixed)
     counters = {"cmd": 0, "open": 0, "create": 0}
 
@@ -209,8 +213,11 @@ def run(tier):
                 ck.ob("A-output-path-from-post", "%s/%s" % (where, p.split("::")[-1]), labels == {"POST"}, "the output path is derived from %s" % sorted(labels))
             if c.get("name") in ("write_all", "write") and len(t["args"]) > 1:
                 o = fbody.origin_operand(t["args"][1])
-                ok = mir.contains(o, lambda x: x[0] == "call" and x[1].endswith("::parse_header"))
+                ok = mir.contains(o, lambda x: x[0] == "call" and x[1].endswith("::parse_header")) or "HDR" in taint.operand_taint(fbody, ftaint, t["args"][1])
                 ck.ob("A-written-value-is-processed-header", "%s/%s" % (where, c.get("name")), ok, "%s writes %s to the output file, not the result of parse_header" % (where, mir.fmt(o)[:160]))
+            if p == "std::fs::write" and len(t["args"]) > 1:
+                ok = "HDR" in taint.operand_taint(fbody, ftaint, t["args"][1])
+                ck.ob("A-written-value-is-processed-header", "%s/fs::write" % where, ok, "%s writes something else than the result of parse_header to the output file" % where)
             callee = fns.get((c.get("res") or {}).get("path") or p)
             if callee is not None and depth < 2 and "::{closure" not in callee["path"] and not callee["path"].endswith("parse_header"):
                 cb = mir.Body(callee)
